@@ -134,11 +134,20 @@ func (c *caseT) classes() []string {
 				set[v+":tag:not-null"] = true
 			}
 			if s.Default != nil {
-				if strings.Contains(s.Default.Tag, "(") {
+				switch {
+				case strings.Contains(s.Default.Tag, "("):
 					set[v+":tag:default-expression"] = true
-				} else if s.Default.DB {
-					set[v+":tag:default-null"] = true
-				} else {
+				case s.Default.Canon == sg.Any:
+					set[v+":tag:default-CURRENT_TIMESTAMP"] = true
+				case s.Default.DB:
+					set[v+":tag:default:"+s.Default.Tag] = true // null / NULL
+				case s.Default.Tag == "''" || s.Default.Tag == `\"\"`:
+					set[v+":tag:default-empty-string"] = true
+				case s.Default.Canon == l.Kind.ZeroCanon || (l.Kind.Elem != nil && s.Default.Canon == l.Kind.Elem.ZeroCanon):
+					set[v+":tag:default-zero-literal"] = true
+				case strings.HasPrefix(s.Default.Tag, "'"):
+					set[v+":tag:default-quoted-string"] = true
+				default:
 					set[v+":tag:default-literal"] = true
 				}
 			}
